@@ -5,6 +5,7 @@ import CSD.Generated.Bodies
 import CSD.Model.SourceText
 import CSD.Lemmas.PFCMeta
 import CSD.Lemmas.RPDAC2
+import CSD.Lemmas.FM8
 
 namespace CSD.Props.C03
 open CSD CSD.PFC
@@ -109,5 +110,41 @@ theorem models_match_source_text :
     Generated.body_RePair_expandRule = SourceText.body_RePair_expandRule ∧
     Generated.body_DAC_VLS_access = SourceText.body_DAC_VLS_access ∧
     Generated.body_DAC_VLS_access_next = SourceText.body_DAC_VLS_access_next := ⟨rfl, rfl, rfl, rfl, rfl, rfl, rfl, rfl, rfl, rfl, rfl, rfl, rfl⟩
+
+
+/-! ### FMINDEX -/
+
+/-- `StringDictionaryFMINDEX::locate` of the `i`-th smallest member is `i` (1-based): the row of
+`\1 s \1` in the suffix array is preceded by the three rows `""`, `\0`, `\1\0` and by the separator
+suffixes of the smaller members, whatever the suffix sorting algorithm produced. -/
+theorem fmindex_locate_is_rank {S : List Str} {L : List FM.Row} {d : FM.Dict} (hv : validDict S = true)
+    (hd : FM.DictOK S L d) (i : Nat) (hi : i < S.length) : d.locate S[i] = some (i + 1) := by
+  have hall : S[i].all validByte = true := by
+    simp only [validDict, Bool.and_eq_true, List.all_eq_true] at hv
+    have := hv.1.2 S[i] (List.getElem_mem hi)
+    simp only [validStr, Bool.and_eq_true] at this
+    exact this.2
+  have hs : SortedLt S := sortedLt_of_sortedStrict S (by
+    simp only [validDict, Bool.and_eq_true] at hv; exact hv.2)
+  rw [FM.locate_spec hv hd S[i] hall, Spec.locate_getElem hs i hi]
+
+example : validDict [[0x61, 0x62], [0x62]] = true ∧ ∃ L d, FM.DictOK [[0x61, 0x62], [0x62]] L d :=
+  ⟨by decide, _, _, FM.dictOK_buildDict _ 2⟩
+
+/-- The FM-index models were written against the current text of the C++ functions they mirror. -/
+theorem fm_models_match_source_text :
+    Generated.body_SSA_locate_id = SourceText.body_SSA_locate_id ∧
+    Generated.body_SSA_locateP = SourceText.body_SSA_locateP ∧
+    Generated.body_SSA_locate = SourceText.body_SSA_locate ∧
+    Generated.body_SSA_extract_id = SourceText.body_SSA_extract_id ∧
+    Generated.body_SSA_build_index = SourceText.body_SSA_build_index ∧
+    Generated.body_SSA_build_bwt = SourceText.body_SSA_build_bwt ∧
+    Generated.body_FMINDEX_ctor = SourceText.body_FMINDEX_ctor ∧
+    Generated.body_FMINDEX_locate = SourceText.body_FMINDEX_locate ∧
+    Generated.body_FMINDEX_extract = SourceText.body_FMINDEX_extract ∧
+    Generated.body_FMINDEX_locatePrefix = SourceText.body_FMINDEX_locatePrefix ∧
+    Generated.body_FMINDEX_locateSubstr = SourceText.body_FMINDEX_locateSubstr ∧
+    Generated.body_FMINDEX_build_ssa = SourceText.body_FMINDEX_build_ssa :=
+  ⟨rfl, rfl, rfl, rfl, rfl, rfl, rfl, rfl, rfl, rfl, rfl, rfl⟩
 
 end CSD.Props.C03
